@@ -31,7 +31,9 @@ def strategy(multi_bias=True):
         spec = draw(libsim.spec_strategy(max_contigs=12 if draw(st.integers(0, 3)) == 0 else 5, max_mols=12))
         method = draw(st.sampled_from(['nla', 'chic', 'qflag'])) if spec['method'] == 'nla' else draw(st.sampled_from(['chic', 'qflag']))
         mode = draw(st.sampled_from(['single', 'multi', 'multi']))
-        run = {'method': method, 'mode': mode, 'no_rejects': draw(st.sampled_from([False, False, True]))}
+        run = {'method': method, 'mode': mode, 'no_rejects': draw(st.sampled_from([False, False, True])),
+               'eject_every': draw(st.sampled_from([None, None, 1, 2, 3, 7])),
+               'index_state': draw(st.sampled_from(['fresh', 'fresh', 'fresh', 'missing', 'older', 'older_same_second']))}
         if draw(st.integers(0, 4)) == 0:
             names = [c[0] for c in spec['contigs']]
             run['skip_contig'] = draw(st.lists(st.sampled_from(names), min_size=1, max_size=2, unique=True))
@@ -67,6 +69,17 @@ def run_case(case, keep=False):
     bam_in = os.path.join(d, 'in.bam')
     bam_out = os.path.join(d, 'out.bam')
     write_bam(bam_in, contigs, records)
+    ist = run.get('index_state', 'fresh')
+    if ist == 'missing':
+        os.remove(bam_in + '.bai')
+    elif ist in ('older', 'older_same_second'):
+        # the file was replaced after it had been indexed: the index on disk describes the previous content and is older
+        write_bam(bam_in, contigs, [r for i, r in enumerate(records) if i % 3 == 0][:max(1, len(records) // 4)])
+        write_bam(bam_in + '.new.bam', contigs, records, index=False)
+        os.replace(bam_in + '.new.bam', bam_in)
+        t0 = 1700000000
+        os.utime(bam_in + '.bai', (t0 + 0.25, t0 + 0.25) if ist == 'older_same_second' else (t0 - 500, t0 - 500))
+        os.utime(bam_in, (t0 + 0.75, t0 + 0.75))
     extra = ['--no_rejects'] if run.get('no_rejects') else []
     extra += run.get('extra', [])
     if run.get('skip_contig'):
@@ -74,7 +87,7 @@ def run_case(case, keep=False):
     err = None
     try:
         tagrun.run_tagger(bam_in, bam_out, run['method'], multiprocess=run['mode'] == 'multi', threads=run.get('threads', 1),
-                          pool=run.get('pool', 'det'), order=run.get('order'), extra=extra)
+                          pool=run.get('pool', 'det'), order=run.get('order'), extra=extra, eject_every=run.get('eject_every'))
     except BaseException as e:       # SystemExit from argparse etc. is also a failure of the run
         import traceback
         tb = [x for x in traceback.extract_tb(e.__traceback__) if 'singlecellmultiomics' in x.filename or 'pysamiterators' in x.filename]
